@@ -331,8 +331,10 @@ impl HitObjectsState {
 
     /// Whether the last object was a spinner.
     fn last_object_was_spinner(&self) -> bool {
-        self.last_object
-            .is_some_and(|kind| kind.has_flag(HitObjectType::SPINNER))
+        self.last_object.is_some_and(|kind| {
+            kind.has_flag(HitObjectType::SPINNER)
+                && !kind.has_flag(HitObjectType::CIRCLE | HitObjectType::SLIDER)
+        })
     }
 
     /// Given a `&str` iterator, this method prepares a slice and provides
